@@ -113,6 +113,9 @@ type Options struct {
 	MasterText string `json:"master_text,omitempty"`
 	// Extra members are appended verbatim.
 	Extra []zipw.Member `json:"extra,omitempty"`
+	// RIDFirst writes the attributes of <p:sldId> as r:id, id instead of id, r:id
+	// (the order of attribute specifications is not significant, XML 1.0 3.1).
+	RIDFirst bool `json:"rid_first,omitempty"`
 }
 
 // Deck is the whole package.
@@ -554,7 +557,11 @@ func (d Deck) Members() ([]zipw.Member, error) {
 		if id == 0 {
 			id = 256 + i
 		}
-		fmt.Fprintf(&pr, `<p:sldId id="%d" r:id="%s"/>`, id, ids[i])
+		if d.Opt.RIDFirst {
+			fmt.Fprintf(&pr, `<p:sldId r:id="%s" id="%d"/>`, ids[i], id)
+		} else {
+			fmt.Fprintf(&pr, `<p:sldId id="%d" r:id="%s"/>`, id, ids[i])
+		}
 		if s.Missing && s.Dangling {
 			continue // declared, but neither the relationship nor the part exists
 		}
